@@ -118,6 +118,7 @@ func c17Run(w *W) {
 		return s
 	}
 	ret := &retainer{w: w}
+	var keptRefs []*held // messages of which the sending application kept a reference of its own
 	var sender mangos.Socket
 	type rcv struct {
 		name string
@@ -256,13 +257,42 @@ func c17Run(w *W) {
 		if rawSender {
 			m.Header = append(m.Header, rawHeader(skind, 1, uint32(i+1))...)
 		}
-		w.Op("%s sends %d bytes", skind, len(body))
+		// the caller may keep a reference of its own across the Send (Clone:
+		// "allowing it to be shared", e.g. to send the same message on a second
+		// socket afterwards): Send takes over one reference, the caller's other
+		// one stays valid - the message it designates is neither released nor
+		// changed, whatever the protocol does to send it
+		refs := 1
+		if w.Choose(simrt.SProg, 4) == 0 {
+			m.Clone()
+			refs = 2
+			w.Probe("caller-keeps-a-reference-across-send")
+		}
+		if !checkKeptRefs(w, keptRefs) {
+			return
+		}
+		w.Op("%s sends %d bytes (caller holds %d reference(s))", skind, len(body), refs)
 		c := w.Do("SendMsg", func() (interface{}, error) { return nil, sender.SendMsg(m) })
 		c.Wait(50 * time.Millisecond)
 		w.Settle()
 		if !c.Returned() {
 			w.Failf("C17/send-stuck", "%s SendMsg pending", skind)
 			return
+		}
+		if refs == 2 {
+			if c.Err != nil {
+				if !bytes.Equal(m.Body, body) || mangos.VerifRefcnt(m) != 2 {
+					w.Failf("C17/failed-send-damaged-message:"+skind, "%s SendMsg failed with %v; the caller held 2 references, the message is left with body %q (was %q), owner count %d", skind, c.Err, clip(m.Body), clip(body), mangos.VerifRefcnt(m))
+					return
+				}
+				m.Free()
+				m.Free()
+				continue
+			}
+			keptRefs = append(keptRefs, &held{m: m, body: append([]byte(nil), body...), from: skind})
+			if !checkKeptRefs(w, keptRefs) {
+				return
+			}
 		}
 		if c.Err != nil {
 			if !bytes.Equal(m.Body, body) || mangos.VerifRefcnt(m) != 1 {
@@ -384,6 +414,28 @@ func c17Run(w *W) {
 			return
 		}
 	}
+	if !checkKeptRefs(w, keptRefs) {
+		return
+	}
+	for _, h := range keptRefs {
+		h.m.Free() // (a reference the library released on the caller's behalf shows here as a double release)
+	}
+}
+
+// checkKeptRefs: every message of which the sender kept its own reference is
+// still alive and unchanged.
+func checkKeptRefs(w *W, kept []*held) bool {
+	for _, h := range kept {
+		if rc := mangos.VerifRefcnt(h.m); rc < 1 {
+			w.Failf("C17/callers-reference-released:"+h.from, "the application kept a reference (Clone) of a message it sent on %s; the message has been released (owner count %d)", h.from, rc)
+			return false
+		}
+		if !bytes.Equal(h.m.Body, h.body) {
+			w.Failf("C17/callers-shared-message-changed:"+h.from, "the application kept a reference (Clone) of a message it sent on %s; its body is now %q (was %q)", h.from, clip(h.m.Body), clip(h.body))
+			return false
+		}
+	}
+	return true
 }
 
 func init() {
